@@ -223,6 +223,13 @@ func c12pair(rng *verifkit.Rand, kind, rel string) (*c12def, *c12def) {
 			return v, base
 		}
 		return base, v
+	case "fieldlist-root-prefix", "fieldlist-duplicate", "fieldlist-computed", "fieldlist-case", "fieldlist-space", "fieldlist-name-prefix":
+		v := c12clone(base)
+		c12set(v.Cfg, "FieldList", c12nearFieldList(rng, c12fields(base.Cfg), rel))
+		if rng.Bool() {
+			return v, base
+		}
+		return base, v
 	case "FieldList":
 		v := c12clone(base)
 		fl := c12fields(base.Cfg)
@@ -264,6 +271,47 @@ func c12pair(rng *verifkit.Rand, kind, rel string) (*c12def, *c12def) {
 		}
 		return base, v
 	}
+}
+
+// c12nearEqual: FieldList relations in which the two lists are different configurations
+// that a careless canonicalisation could identify.
+var c12nearEqual = []string{"fieldlist-root-prefix", "fieldlist-duplicate", "fieldlist-computed", "fieldlist-case", "fieldlist-space", "fieldlist-name-prefix"}
+
+func c12nearFieldList(rng *verifkit.Rand, fl []string, class string) []string {
+	nf := append([]string(nil), fl...)
+	i := rng.Intn(len(nf))
+	x := nf[i]
+	switch class {
+	case "fieldlist-root-prefix": // root.<name> vs <name>
+		if strings.HasPrefix(x, config.RootPrefix) {
+			nf[i] = strings.TrimPrefix(x, config.RootPrefix)
+		} else {
+			nf[i] = config.RootPrefix + x
+		}
+	case "fieldlist-duplicate": // [a] vs [a, a]
+		nf = append(nf, x)
+		verifkit.Shuffle(rng, nf)
+	case "fieldlist-computed": // extra computed field
+		nf = append(nf, string(config.NUM_DESCENDANTS))
+		verifkit.Shuffle(rng, nf)
+	case "fieldlist-case": // names differing by case only
+		nf[i] = x[:len(x)-1] + strings.ToUpper(x[len(x)-1:])
+	case "fieldlist-space": // surrounding space
+		if rng.Bool() {
+			nf[i] = x + " "
+		} else {
+			nf[i] = " " + x
+		}
+	case "fieldlist-name-prefix": // one name is a proper prefix of the other
+		if rng.Bool() {
+			nf[i] = x + "_code"
+		} else {
+			nf[i] = x[:len(x)-1]
+		}
+	default:
+		panic("c12: near-equal class " + class)
+	}
+	return nf
 }
 
 // c12diff classifies how two definitions differ. empty result = configurations
@@ -422,6 +470,9 @@ func c12pairFrom(rng *verifkit.Rand, base *c12def, field string) (*c12def, *c12d
 		v := c12clone(base)
 		nf := append(c12fields(base.Cfg), "extra.field")
 		verifkit.Shuffle(rng, nf)
+		if rng.Bool() {
+			nf = c12nearFieldList(rng, c12fields(base.Cfg), c12nearEqual[rng.Intn(len(c12nearEqual))])
+		}
 		c12set(v.Cfg, "FieldList", nf)
 		return base, v
 	}
@@ -570,7 +621,7 @@ type c12witness struct {
 func TestVerif_C12(t *testing.T) {
 	run := verifkit.Start(t, "C12", "sample")
 	defer run.Finish()
-	run.Rule("each case = a rules file built around one pair of sampler definitions (kind x relation enumerated round-robin: identical, exactly one differing field for every field of every dynsampler-backed sampler config, FieldList order, FieldList tokenisation, different sampler type) placed in one environment (two rules of a RulesBasedSampler) or across environments (top/top, both via __default__, top vs downstream, downstream vs downstream, name resembling the downstream prefix), plus filler definitions; 1-16 goroutine workers create samplers lazily in PRNG order through per-worker caches, 1-3 phases with reloads (config swap + ClearDynsamplers + worker cache clear) racing the workers; non-trivial = at least one must-isolate or must-share pair was decided; distinct = placement/kind/relation/reload")
+	run.Rule("each case = a rules file built around one pair of sampler definitions (kind x relation enumerated round-robin: identical, exactly one differing field for every field of every dynsampler-backed sampler config, FieldList order, FieldList tokenisation, FieldList near-equal classes root.-prefix/duplicate entry/extra computed field/case/surrounding space/name prefix, different sampler type) placed in one environment (two rules of a RulesBasedSampler) or across environments (top/top, both via __default__, top vs downstream, downstream vs downstream, name resembling the downstream prefix), plus filler definitions; 1-16 goroutine workers create samplers lazily in PRNG order through per-worker caches, 1-3 phases with reloads (config swap + ClearDynsamplers + worker cache clear) racing the workers; non-trivial = at least one must-isolate or must-share pair was decided; distinct = placement/kind/relation/reload")
 	run.Assume("InMemCollector reload = SamplerFactory.ClearDynsamplers() followed by every worker clearing its sampler cache (collect.go reloadConfigs / collector_worker.go)")
 	run.Assume("dynsampler-go request_count changes only through GetSampleRate/GetSampleRateMulti")
 
@@ -584,7 +635,7 @@ func TestVerif_C12(t *testing.T) {
 			}
 			combos = append(combos, combo{k, f})
 		}
-		for _, r := range []string{"identical", "fieldlist-order", "fieldlist-tokenisation", "kind"} {
+		for _, r := range append([]string{"identical", "fieldlist-order", "fieldlist-tokenisation", "kind"}, c12nearEqual...) {
 			combos = append(combos, combo{k, r})
 		}
 	}
